@@ -10,7 +10,7 @@ META = {
              'target = the object passed; origin fields = an ORIGIN object of the file); signature = (#references, #repeated '
              'names, #origins, hash of add order); non-trivial when there is a reference and a repeated name or >= 2 origins'),
     'required_obs': {'quick': ['reference-checked', 'iflr-reference-checked', 'reference-target-compared', 'copy-number>0',
-                               'objref-seen', 'explicit-origin', 'non-defining-origin', 'origin-backfilled', 'repeated-names', 'identity-change-then-rewrite', 'rewrite-renamed', 'retried-after-rejected-call', 'copy-number>=128', 'same-name-across-types', 'explicit-origin-zero', 'origin-own-reference-checked', 'object-of-another-logical-file', 'rename-away-then-reuse-name', 'header-origin-field-checked']},
+                               'objref-seen', 'explicit-origin', 'non-defining-origin', 'origin-backfilled', 'repeated-names', 'identity-change-then-rewrite', 'rewrite-renamed', 'retried-after-rejected-call', 'copy-number>=128', 'same-name-across-types', 'explicit-origin-zero', 'origin-own-reference-checked', 'object-of-another-logical-file', 'rename-away-then-reuse-name', 'header-origin-field-checked', 'names-differing-in-blanks']},
     'assumptions': ['the oracle never predicts copy numbers; it demands uniqueness and consistent use of the writer\'s own numbering'],
 }
 META['required_obs']['thorough'] = META['required_obs']['quick']
